@@ -129,7 +129,40 @@ Definition shapes_exact : bool := {coq_bool(exact)}.
     return "GenProc.v", text, info
 
 
-GENERATORS = {"proc": gen_proc}
+# --------------------------------------------------------------------------- D-vte (C08 C03 C19)
+def gen_vte():
+    """the transition table of the escape-sequence parser linked into delta, dumped from the
+    hook-enabled binary built from the current tree"""
+    import subprocess
+    delta = os.path.join(os.environ.get("VERIF_CACHE", "/verif/.cache"), "target", "debug", "delta")
+    env = dict(os.environ)
+    env["DELTA_VERIF"] = "dump:vte"
+    p = subprocess.run([delta], env=env, stdout=subprocess.PIPE, stderr=subprocess.PIPE, timeout=60)
+    if p.returncode != 0:
+        raise PatternError("dump:vte failed: " + p.stderr.decode()[-300:])
+    rows = {}
+    for line in p.stdout.decode().split("\n"):
+        f = line.split()
+        if not f:
+            continue
+        ent = [tuple(int(x) for x in e.split(":")) for e in f[1:]]
+        if len(ent) != 256:
+            raise PatternError("dump:vte: a row does not have 256 entries")
+        rows[int(f[0])] = ent
+    if sorted(rows) != list(range(16)):
+        raise PatternError("dump:vte: expected 16 states")
+    body = []
+    for st in range(16):
+        body.append("  [" + "; ".join(f"({a}, {b})" for a, b in rows[st]) + "]")
+    text = ("(* GENERATED by tools/translate.py from the hook-enabled binary (DELTA_VERIF=dump:vte): the\n"
+            "   state_change table of anstyle-parse as linked into delta.  Entry = (next state, action),\n"
+            "   numeric values of anstyle_parse::state::{State, Action}; next state 0 = stay. *)\n"
+            "From Coq Require Import List NArith.\nImport ListNotations.\nLocal Open Scope N_scope.\n\n"
+            "Definition vte_table : list (list (N * N)) := [\n" + ";\n".join(body) + "\n].\n")
+    return "GenVte.v", text, {"states": 16}
+
+
+GENERATORS = {"proc": gen_proc, "vte": gen_vte}
 
 
 def run(which=None):
